@@ -105,11 +105,22 @@ class XmlTableGen:
         own = rng.choice(selfs) if selfs else b'hello'
 
         bins = [r for r in tags if len(r) > 3 and r[3] & 1]
+        # names that exist in several code pages (ActiveSync: Status, Add, Class ...): which row is meant is
+        # decided by the namespace in scope
+        seen_pages = {}
+        for r in tags:
+            seen_pages.setdefault(r[0], set()).add(r[1])
+        dups = [r for r in tags if len(seen_pages[r[0]]) > 1]
 
         def elt(depth, page):
             t = rng.choice(tags)
             if bins and rng.random() < 0.2:
                 t = rng.choice(bins)          # rows with special handling are few: boost them
+            elif dups and rng.random() < 0.25:
+                # preferably a row of ANOTHER page whose name also exists in the parent's page: only the
+                # namespace declaration tells the two apart
+                amb = [r for r in dups if r[1] != page and page in seen_pages[r[0]]]
+                t = rng.choice(amb if amb and rng.random() < 0.7 else dups)
             name = bytes.fromhex(t[0])
             if rng.random() < 0.12:
                 name = rng.choice(lit_pool)
@@ -192,3 +203,30 @@ def as_utf8(x):
     except UnicodeError:
         pass
     return x
+
+
+def syncml_xml(rng, devinf=None):
+    """SyncML 1.1 / 1.2 messages around the Data / Meta / Type machinery, as XML text: the type announced at the
+    command or at the item, items with a <Meta> of their own that carries no <Type>, vObject payloads (plain or in
+    a CDATA section, several lines), embedded DevInf documents, payloads of other types."""
+    ver = rng.choice(['1.1', '1.2'])
+    ns = 'SYNCML:SYNCML' + ver
+    mime = rng.choice(['text/x-vcard', 'text/x-vcalendar', 'text/clear', 'text/plain', 'application/vnd.syncml-devinf+xml',
+                       'application/vnd.syncml-devinf+xml', 'text/directory;profile=vCard'])
+    cmd = rng.choice(['Add', 'Replace', 'Results', 'Put', 'Alert'])
+    where = rng.choice(['item', 'cmd', 'cmd', 'none'])
+    meta = f"<Meta><Type xmlns='syncml:metinf'>{mime}</Type></Meta>"
+    if mime.endswith('+xml'):
+        payload = devinf or ("<DevInf xmlns='syncml:devinf'><VerDTD>" + ver + "</VerDTD><Man>Big Factory, Ltd.</Man><Mod>4119</Mod><DevID>1218182THD000001-2</DevID><DevTyp>phone</DevTyp></DevInf>")
+    else:
+        lines = rng.choice([['BEGIN:VCARD', 'VERSION:2.1', 'N:Doe;John', 'END:VCARD'], ['line1', 'line2'], ['a]]>b'], ['x'], [' padded ', '']])
+        text = '\n'.join(lines) + rng.choice(['', '\n'])
+        payload = ('<![CDATA[' + text.replace(']]>', ']]]]><![CDATA[>') + ']]>') if rng.random() < 0.5 else text.replace('&', '&amp;').replace('<', '&lt;').replace(']]>', ']]&gt;')
+    item_meta = ''
+    if where == 'item':
+        item_meta = meta
+    elif where == 'cmd' and rng.random() < 0.4:
+        item_meta = "<Meta><Format xmlns='syncml:metinf'>b64</Format><Size xmlns='syncml:metinf'>12</Size></Meta>"
+    body = f"<{cmd}><CmdID>1</CmdID>{meta if where == 'cmd' else ''}<Item><Source><LocURI>./x</LocURI></Source>{item_meta}<Data>{payload}</Data></Item></{cmd}>"
+    head = '<?xml version="1.0"?>' + rng.choice(['', f'<!DOCTYPE SyncML PUBLIC "-//SYNCML//DTD SyncML {ver}//EN" "http://www.openmobilealliance.org/tech/DTD/OMA-TS-SyncML_RepPro_DTD-V1_2.dtd">' if ver == '1.2' else '<!DOCTYPE SyncML PUBLIC "-//SYNCML//DTD SyncML 1.1//EN" "http://www.syncml.org/docs/syncml_represent_v11_20020213.dtd">'])
+    return (head + f'<SyncML xmlns="{ns}"><SyncHdr><VerDTD>{ver}</VerDTD><VerProto>SyncML/{ver}</VerProto><SessionID>1</SessionID><MsgID>1</MsgID></SyncHdr><SyncBody>{body}<Final/></SyncBody></SyncML>').encode()
